@@ -1,9 +1,9 @@
 #!/bin/bash
 # Confirms every seeded change in its scratch worktree (rebased onto /repo's current HEAD):
-# patch applies, the 33 tests pass, demo FAILS with the patch and PASSES without. Writes /tmp/seed/confirm.tsv
+# patch applies, the 33 tests pass, demo FAILS with the patch and PASSES without. Writes ${SEEDROOT:-/tmp/seed}/confirm.tsv
 HEAD=$(git -C /repo rev-parse HEAD)
-: > /tmp/seed/confirm.tsv
-for d in /tmp/seed/C*/out/*; do
+: > ${SEEDROOT:-/tmp/seed}/confirm.tsv
+for d in ${SEEDROOT:-/tmp/seed}/C*/out/*; do
   wt=${d%/out/*}; id=$(basename $wt); k=$(basename $d)
   cd $wt || continue
   git checkout -q -- . 2>/dev/null; git checkout -q --detach $HEAD 2>/dev/null
@@ -11,12 +11,12 @@ for d in /tmp/seed/C*/out/*; do
   if ! git apply $d/patch.diff 2>/dev/null; then
      if patch -p1 --fuzz=3 -s < $d/patch.diff >/dev/null 2>&1; then ap=fuzz; else ap=FAIL; git checkout -q -- .; git clean -fdq -- aquacrop; fi
   fi
-  if [ $ap = FAIL ]; then echo -e "$id\t$k\tapply=FAIL" >> /tmp/seed/confirm.tsv; continue; fi
+  if [ $ap = FAIL ]; then echo -e "$id\t$k\tapply=FAIL" >> ${SEEDROOT:-/tmp/seed}/confirm.tsv; continue; fi
   git diff -- aquacrop > $d/patch.rebased.diff
   t=$(/venv/bin/python -W ignore -m pytest -q -p no:cacheprovider -x 2>&1 | tail -1)
   /venv/bin/python -W ignore $d/demo.py > $d/demo.patched.out 2>&1; r1=$?
   git checkout -q -- .; git clean -fdq -- aquacrop
   /venv/bin/python -W ignore $d/demo.py > $d/demo.clean.out 2>&1; r0=$?
-  echo -e "$id\t$k\tapply=$ap\ttests=[$t]\tdemo_patched_rc=$r1\tdemo_clean_rc=$r0" >> /tmp/seed/confirm.tsv
+  echo -e "$id\t$k\tapply=$ap\ttests=[$t]\tdemo_patched_rc=$r1\tdemo_clean_rc=$r0" >> ${SEEDROOT:-/tmp/seed}/confirm.tsv
 done
-cat /tmp/seed/confirm.tsv
+cat ${SEEDROOT:-/tmp/seed}/confirm.tsv
